@@ -11,6 +11,13 @@
        prog / kprog      _dispatch_timers_program -> _dispatch_timeout_program (timerfd_settime / EPOLL_CTL_DEL)
        kevent            _dispatch_event_merge_timer (the timerfd expired)
        wait              the manager enters a BLOCKING epoll_wait
+   and, through the hooked atomics of shims/atomic.h (no probe needed), for the timers the driver created:
+       configure         _dispatch_timer_unote_configure on whatever thread runs it (manager: source invoke /
+                         _dispatch_timers_run; target queue: tail of _dispatch_source_latch_and_call; activation):
+                         pd = class of ds_pending_data at the moment the pending configuration was taken
+                         (xchg dt_pending_config -> NULL; 0 nothing, 1 marker only, 2 count, 3 count|DISARMED_MARKER),
+                         and the configuring thread's NEXT access to that ds_pending_data (loads made by configure
+                         itself excepted): op (1 store, 2 xchg, 3 load, 4 other rmw), old and new value (capped at 255)
    Times are microseconds since a base (TLC integers are 32-bit), floor(ns / 1000).  floor is
    monotone, so minima and "target <= now" survive the conversion.  The driver gives every
    timer IT creates a start and an interval that are whole microseconds: for those, targets
@@ -29,6 +36,13 @@
        ProgramsMinimum         MProg programs the kernel timer with MinTarget, deletes it iff the heap is empty or due
        ArmedImpliesProgrammed  when the manager blocks, every non-empty heap has its kernel timer enabled at <= MinTarget
        TimeMonotone            the `now` values the manager uses never decrease (clocks 1, 2; the wall clock 3 may be stepped)
+       ConfigureClearsPending  Timer!Configure: pcnt' = 0 /\ pmark' = FALSE whether or not the timer is armed ("clear any
+                               pending data that might have accumulated on older timer params"): the configuring thread
+                               stores 0 to ds_pending_data, or at least finds 0 there when it next looks.  Nobody else can
+                               clear the word in between: the thread is the manager (the only one that fires timers) or
+                               holds the source's drain lock with the timer out of the heap.  A disarmed timer carries
+                               count << 1 | MARKER exactly when it has an undelivered fire (pd = 3): keeping it would deliver
+                               a count of the replaced configuration (OnlyNewConfig / NeverEarly / CountBound of Timer.tla)
    `bad` names the first law broken ("LAW ...") or the first record the state rebuilt so far
    cannot explain structurally ("DRIFT ...": the probes or this module are out of date). *)
 EXTENDS Integers, FiniteSets, Sequences, TLC, Json, IOUtils, TLCExt, TimerLaws
@@ -119,6 +133,13 @@ TWait == /\ Ev("wait")
                        "ArmedImpliesProgrammed: the manager blocks with a non-empty heap whose kernel timer is not programmed at or before the minimum target">> >>)
          /\ UNCHANGED <<am, kt, ken, tnow, lastrun>>
 
+\* _dispatch_timer_unote_configure, word level (the memory_order of the store plays no role)
+TConfigure == /\ Ev("configure")
+              /\ Judge(<< <<Rec.op \in 1..4 /\ Rec.pd \in 0..3, "DRIFT", "malformed configure record">>,
+                          <<IF Rec.op = 1 THEN Rec.nv = 0 ELSE Rec.ov = 0, "LAW",
+                            "ConfigureClearsPending: _dispatch_timer_unote_configure left pending data of the replaced configuration in ds_pending_data">> >>)
+              /\ UNCHANGED <<am, kt, ken, tnow, lastrun>>
+
 \* several executions (processes) are validated in one run: a reset record separates them
 TReset == /\ Ev("reset")
           /\ am' = [t \in TT |-> Unarmed]
@@ -127,7 +148,7 @@ TReset == /\ Ev("reset")
           /\ UNCHANGED bad
 
 TNext == /\ l' = l + 1
-         /\ (TArm \/ TDisarm \/ TRun \/ TFire \/ TProg \/ TKprog \/ TKevent \/ TWait \/ TReset)
+         /\ (TArm \/ TDisarm \/ TRun \/ TFire \/ TProg \/ TKprog \/ TKevent \/ TWait \/ TConfigure \/ TReset)
 TSpec == TInit /\ [][TNext]_tvars
 
 NoLawBroken == bad[1] # "LAW"
